@@ -293,6 +293,10 @@ def stale_candidate(twin: bool = False, real: bool = False):
             rival = W.candidate(state, [cbx], now1, bid=tok(BLK, 11), nonce=77)
             cm.set_coinstate(state.add_block(rival, now1))
             mw.handle_request_scrypt_input_message(1, nonce)
+            # the candidate handed out after the head change is built on the NEW head and is later than it
+            summary1, height1 = mw.send_queues[1].items[-1][1]
+            if summary1.previous_block_hash != rival.hash() or height1 != rival.height + 1 or not (summary1.timestamp > rival.timestamp):
+                return False
             clock[0] = now2
             try:
                 mw.handle_scrypt_output_message(0, cons.construct_summary_hash(summary0, height0))
@@ -324,6 +328,92 @@ def stale_candidate(twin: bool = False, real: bool = False):
     return check_stale, {"now1": 5000, "now2": 5001, "nonce": 1}
 
 
+def after_reorg(twin: bool = False, real: bool = False):
+    """The pool holds a transaction that is valid only on the head's branch (it spends P's reward); the sibling fork overtakes
+    with a reward-only block; the miner then asks for work and its nonce wins. The candidate must be assembled (no error),
+    must not contain the now unspendable transaction, and the found block is adopted on the new head."""
+    W = World(real=real, networking=True, served_head="P")
+    from symlib import nodeshell as ns
+    dt, cons = W.dt, W.cons
+    import skepticoin.wallet as wl
+
+    def check_after_reorg(now1: int, now2: int, nonce: int) -> bool:
+        """
+        post: _
+        """
+        if not (2002 <= now1 <= now2 < 2 ** 31 and 0 <= nonce < 2 ** 32):
+            return True
+        if not real:
+            W._install_crypto()
+            from symlib.stubs.oracles import LRO
+            W.dt.sha256d = LRO(0x07)
+        pv = [5, 6, 7, 8]
+        state = W.state(pv)
+        lp = ns.make_node()
+        cm = lp.chain_manager
+        cm.coinstate = state
+        cm.last_known_valid_coinstate = state
+        only_on_p = W.make_tx(tok(TX, 45), [(7, 0, 0)], [(4, 2)], pv, tok(TX, 2), None)       # spends P's reward output
+        cm.transaction_pool = [only_on_p]
+        wallet = wl.Wallet({W.keys[2].public_key: b"k2", W.keys[1].public_key: b"k1", W.keys[0].public_key: b"k0"},
+                           [W.keys[1].public_key, W.keys[0].public_key], {W.keys[2].public_key: "reserved for potentially mined block"})
+        mw, mining = _watcher(W, ns, lp, wallet)
+        events: List[Any] = []
+        lp.network_manager.broadcast_block = lambda b: events.append(("broadcast", b))
+        lp.disk_interface.save_block = lambda b: events.append(("save", b))
+        lp.disk_interface.flush_blocks = lambda: events.append(("flush", None))
+        saved = (mining.time, mining.save_wallet, getattr(mining, "print", None), mining.Decimal)
+
+        class _Dec:
+            def __init__(self, x: Any):
+                pass
+
+            def __rtruediv__(self, other: Any) -> int:
+                return 0
+        clock = [now1]
+        mining.time, mining.save_wallet, mining.print, mining.Decimal = (lambda: clock[0]), (lambda w: None), (lambda *a, **k: None), _Dec
+        try:
+            cbq = W.env.coinbase(W.h, [dt.Output(1, W.keys[3])], tok(TX, 30))
+            q = W.candidate(state, [cbq], 2002, parent=W.F, bid=tok(BLK, 11), nonce=77)       # reward-only block on the sibling fork
+            try:
+                cm.set_coinstate(state.add_block(q, now1))
+            except Exception:
+                return True
+            if cm.coinstate.current_chain_hash != q.hash():
+                return True
+            try:
+                mw.handle_request_scrypt_input_message(0, nonce)
+                summary0, height0 = mw.send_queues[0].items[-1][1]
+                clock[0] = now2
+                mw.handle_scrypt_output_message(0, cons.construct_summary_hash(summary0, height0))
+                raised = False
+            except Exception:
+                raised = True
+        finally:
+            mining.time, mining.save_wallet, mining.Decimal = saved[0], saved[1], saved[3]
+            if saved[2] is None:
+                del mining.print
+            else:
+                mining.print = saved[2]
+        if twin:
+            return raised
+        if raised:
+            return False
+        blocks = [b for (k, b) in events if b is not None]
+        if not blocks:
+            return False
+        blk = blocks[0]
+        served = cm.coinstate
+        if blk.previous_block_hash != q.hash() or served.current_chain_hash != blk.hash():
+            return False
+        if len(blk.transactions) != 1 or len(cm.transaction_pool) != 0:
+            return False           # the transaction that is unspendable on this branch is neither mined nor kept
+        kinds = [k for (k, _) in events]
+        return kinds.count("broadcast") == 1 and kinds.count("save") == 1 and kinds.count("flush") >= 1
+
+    return check_after_reorg, {"now1": 5000, "now2": 5001, "nonce": 1}
+
+
 def obligations(tier: str, known: List[str]) -> List[Ob]:
     thorough = tier == "thorough"
     T = 1500 if thorough else 600
@@ -340,6 +430,7 @@ def obligations(tier: str, known: List[str]) -> List[Ob]:
     obs.append(t)
     obs.append(Ob("broadcast-reaches-every-active-peer", C_ADOPT, "broadcast_reaches_all", {}, timeout=T))
     obs.append(Ob("found-block-on-a-parent-that-is-no-longer-the-head", C_ADOPT, "stale_candidate", {}, timeout=T))
+    obs.append(Ob("work-after-a-reorganisation-with-a-pending-transaction-of-the-losing-branch", C_VALID + "; " + C_ADOPT, "after_reorg", {}, timeout=T))
     # the listed finding, identified by its input class: validator clock at least 30 s behind the head's timestamp
     obs.append(Ob("finding[clock<=head.ts-30]", C_VALID, "found_block", {"h": 2, "npool": 0, "exclude_known": False, "only_known": True},
                   expect="refuted", role="finding", finding_key=KEY_CLOCK, timeout=300))
